@@ -87,6 +87,8 @@ func shape(id, i int) dns.RR {
 		return mustRR(fmt.Sprintf("unrelated%d.test. 300 IN TXT \"%s\"", i, filler[:250]))
 	case 5:
 		return mustRR("example.org. 300 IN MX 10 mail.some-other-long-domain-name.example.net.")
+	case 7: // a name inside RDATA that may not be compressed (RRSIG signer): it is written in full
+		return mustRR(fmt.Sprintf("a.example.org. 300 IN RRSIG A 13 3 300 20300101000000 20200101000000 %d example.org. AwEAAagAIKlVZrpC6Ia7gEzahOR+9W29euxhJhVVLOyQbSEW0O8gcCjFFVQUTf6v58fLjwBd0YI0EzrAcQqBGCzh/RStIoO8g0NfnfL2MTJRkxoXbfDaUeVPQuYEhg37NZWAJQ9VnMVDxP/VHL496M/QZxkjf5/Efucp2gaDX6RS6CXpoY68LsvPVjR0ZSwzz1apAzvN9dlzEheX7ICJBBtuA6G3LQpzW5hOA2hzCTMjJPJ8LbqF6dsV6DoBQzgul0sGIcGOYl7OyQdXfZ57relSQageu+ipAdTTJ25AsRTAoub8ONGcLmqrAmRLKBP1dfwhYB4N7knNnulqQxA+Uk1ihz0=", 1000+i))
 	case 6:
 		return mustRR(fmt.Sprintf("big%d.example.org. 300 IN TXT \"%s\" \"%s\" \"%s\"", i, filler[:200], filler[:200], filler[:200]))
 	}
